@@ -245,10 +245,17 @@ StrictDecode(f) ==
                IF ~w.ok THEN w
                ELSE [ok |-> TRUE, pkt |-> [t |-> t, fl |-> fl, v |-> w.v], fm |-> w.fm, hdr |-> rl.next - 1]
 
+(* one whole frame: first byte, minimal remaining length = bytes that follow *)
+Framed(b) ==
+  /\ Len(b) >= 2
+  /\ LET r == DecVBI(b, 2, Len(b), Len(b), FALSE) IN r.ok /\ r.next + r.val - 1 = Len(b)
+
+FrameLen(b) == LET r == DecVBI(b, 2, Len(b), Len(b), FALSE) IN r.next + r.val - 1
+
 (***************************************************************************)
 (*            semantic rules on top of the structure (Appendix C)          *)
 (***************************************************************************)
-Range(s) == {s[k] : k \in 1..Len(s)}
+SeqRange(s) == {s[k] : k \in 1..Len(s)}
 HasProp(props, id) == \E k \in 1..Len(props) : props[k].id = id
 PropVal(props, id) == props[CHOOSE k \in 1..Len(props) : props[k].id = id].val
 PropsOf(props, id) == LET idx == {k \in 1..Len(props) : props[k].id = id}
@@ -316,7 +323,13 @@ Verdict(f) ==
 (***************************************************************************)
 InteriorCuts(fm) ==
   UNION { (IF x.pv THEN {x.s - 1} ELSE {}) \cup
-          (IF x.k \in {"u16", "u32", "str", "vbi"} THEN x.s..(x.e - 1) ELSE {}) : x \in Range(fm) }
+          (IF x.k \in {"u16", "u32", "str", "vbi"} THEN x.s..(x.e - 1) ELSE {}) : x \in SeqRange(fm) }
+
+(* for long fields: the first and last interior positions only *)
+CutSample(fm) ==
+  UNION { (IF x.pv THEN {x.s - 1} ELSE {}) \cup
+          (IF x.k \in {"u16", "u32", "str", "vbi"}
+           THEN {x.s, x.s + 1, x.s + 2, x.e - 2, x.e - 1} \cap (x.s..(x.e - 1)) ELSE {}) : x \in SeqRange(fm) }
 
 (* the frame that ends after index c of f (c >= hdr), remaining length adjusted *)
 Reframe(f, hdr, c) == <<f[1]>> \o VBI(c - hdr) \o SubSeq(f, hdr + 1, c)
